@@ -84,7 +84,7 @@ func genCase(t *rapid.T, requires, noChain bool) faultCase {
 		Op: opgen.Gen(t, super, opgen.Options{Mutations: allowFromEnv()["mutation-sequence"], ForceName: true, Allow: allowFromEnv(), NoMirrored: !multi})}
 }
 
-var faultPart = pbt.Part[faultCase]{Name: "fault-isolation-random", Quick: 7000, Thorough: 140000, Check: checkFault,
+var faultPart = pbt.Part[faultCase]{Name: "fault-isolation-random", Journal: true, Quick: 7000, Thorough: 140000, Check: checkFault,
 	Gen: func(t *rapid.T) faultCase {
 		c := genCase(t, false, false)
 		n := rapid.IntRange(1, 3).Draw(t, "nfaults")
@@ -100,7 +100,7 @@ var faultPart = pbt.Part[faultCase]{Name: "fault-isolation-random", Quick: 7000,
 // with a null required field (finding C07-requires-fetch-sent-with-null-required-field), so
 // the other parts keep @requires out; a transport failure makes it skip the dependants,
 // and that skip has to carry through every later hop of the chain.
-var requiresPart = pbt.Part[faultCase]{Name: "fault-isolation-requires-transport", Quick: 3000, Thorough: 60000, Check: checkFault,
+var requiresPart = pbt.Part[faultCase]{Name: "fault-isolation-requires-transport", Journal: true, Quick: 3000, Thorough: 60000, Check: checkFault,
 	Gen: func(t *rapid.T) faultCase {
 		// with the validation switches on, the second hop of a @requires chain is still sent with
 		// a null required field (its own input was never fetched): same family as the recorded
@@ -120,7 +120,7 @@ var requiresPart = pbt.Part[faultCase]{Name: "fault-isolation-requires-transport
 		return c
 	}}
 
-var enumPart = pbt.Part[faultCase]{Name: "fault-isolation-enumeration", Quick: 700, Thorough: 14000, Check: checkFault,
+var enumPart = pbt.Part[faultCase]{Name: "fault-isolation-enumeration", Journal: true, Quick: 700, Thorough: 14000, Check: checkFault,
 	Gen: func(t *rapid.T) faultCase {
 		c := genCase(t, false, false)
 		c.Enum = true
